@@ -24,7 +24,8 @@ LEVEL = 'exploration'
 RULE = ('per (protocol, validator): random byte strings; every prefix of N valid requests (N=3 quick, 40 thorough); structure-aware '
         'mutations of valid requests (type-hostile leaf literals, member deletion/duplication, unknown members, kind swaps, wrong nesting, '
         'empty body/envelope, wrong charset, junk attributes, bad percent-encoding); ServerBase and WSGI; non-trivial = an input that was '
-        'processed to a verdict; distinct by (protocol, validator, driver, input class, outcome, fault code / rejection site).')
+        'processed to a verdict; distinct by (protocol, validator, driver, input class, outcome, fault code / rejection site).'
+        ' Also: 13 mixed in/out protocol configurations, hostile names, raw literals beyond interpreter limits, deep nesting, multipart bodies, the same application behind a 160-byte request limit, hostile Content-Length headers, the every-kind leaf and key sweep (each leaf x hostile literals and all one-edit neighbours of the valid literal; binary members in three encodings), multi-ref graphs, chains of a class that contains itself up to 20000 levels and YAML recursive aliases.')
 ASSUMPTIONS = [
     'user functions return nothing and cannot fail: every fault observed is attributable to the request',
     'a watchdog firing (wall clock) is inconclusive; exceeding 20 s of process-virtual CPU time for one request is a violation',
